@@ -18,6 +18,7 @@ Case kinds (abstract inputs; the same input goes to the real code and to the Coq
 """
 import json
 import os
+import random
 
 from . import common
 from .common import cZ, cnat, cbool, clist
@@ -198,7 +199,75 @@ def has_repeat(c):
 def has_twin(c):
     ads = c.get("ads") or []
     used = sorted(set(j for j, _ in leaves(desugar(c["expr"]))))
-    return any(ads[i] == ads[j] for i in used for j in used if i < j and i < len(ads) and j < len(ads))
+    core = lambda a: {k: v for k, v in a.items() if k != "decoy"}     # book-keeping attributes are not content
+    return any(core(ads[i]) == core(ads[j]) for i in used for j in used if i < j and i < len(ads) and j < len(ads))
+
+
+# ---------------------------------------------------------------------------
+# user analysis objects are arbitrary: book-keeping attributes whose names collide with the library's own
+# ---------------------------------------------------------------------------
+def gen_decoy(rng, force_model=False):
+    """attributes a member carries for its own purposes (directly, or reachable through a forwarding __getattr__):
+    `model` (the model the data was simulated from: fresh priors / half of the search model's priors / None),
+    `analysis`, `analyses` (other analysis objects), `index`, `n_cores`, `free_parameters`.  The property does not
+    mention them: only `with_model` gives an analysis a model, only `+` makes a sum."""
+    attrs = {}
+    if force_model or rng.random() < 0.65:
+        attrs["model"] = rng.choice(["alt", "alt", "mix", "none"])
+    if rng.random() < 0.3:
+        attrs["analysis"] = rng.choice(["other", "other", "none"])
+    if rng.random() < 0.2:
+        attrs["analyses"] = rng.choice(["others", "empty", "none"])
+    if rng.random() < 0.3:
+        attrs["index"] = rng.choice([0, 1, 2, 5, None])
+    if rng.random() < 0.2:
+        attrs["n_cores"] = rng.choice([1, 2, 3, None])
+    if rng.random() < 0.2:
+        attrs["free_parameters"] = rng.choice(["priors", "empty", "none"])
+    if not attrs:
+        attrs["model"] = "alt"
+    return {"cls": rng.choice(["plain", "plain", "fwd", "sub"]), "attrs": attrs}
+
+
+def add_decoys(rng, c, p_member=0.7, force_model=False):
+    n_ads = max(j for j, _ in leaves(desugar(c["expr"]))) + 1
+    if "ads" not in c:
+        c["ads"] = [{} for _ in range(n_ads)]
+    hit = False
+    for a in c["ads"]:
+        if rng.random() < p_member:
+            a["decoy"] = gen_decoy(rng, force_model)
+            hit = True
+    if not hit:
+        c["ads"][rng.randrange(len(c["ads"]))]["decoy"] = gen_decoy(rng, force_model)
+    return c
+
+
+def has_decoy(c):
+    return any(a.get("decoy") for a in c.get("ads") or [])
+
+
+def decoy_cases(rng, vals_pool):
+    """sums with free parameters / with_model / both whose PLAIN members carry a `model` (and more) of their own:
+    the named shapes of every run"""
+    out = []
+    for variant in ("free", "own", "both"):
+        for rep in range(4):
+            c = gen_idx_case(rng, variant, vals_pool, conf_cores=2 if rep == 3 else None)
+            lv = leaves(desugar(c["expr"]))
+            kinds = ["alt", "mix", "none", "alt"]
+            for pos, (j, h) in enumerate(lv):
+                if not h or rep % 2:
+                    c["ads"][j]["decoy"] = {"cls": ["plain", "fwd", "sub", "plain"][(rep + pos) % 4],
+                                            "attrs": {"model": kinds[(rep + pos) % 4]}}
+            if rep >= 2:
+                add_decoys(rng, c, 0.5)
+            out.append(c)
+    for variant, cc in (("free", None), ("own", 2), ("both", None), ("plain", None)):
+        c = gen_fit_case(rng, variant, cc)
+        add_decoys(rng, c, 0.8, force_model=True)
+        out.append(c)
+    return out
 
 # ---------------------------------------------------------------------------
 # generator
@@ -422,6 +491,13 @@ def gen_cases(ctx):
     shapes = dup_shapes(lambda j: {"j": j})
     for si, variant, cc in [(0, "plain", None), (1, "plain", 2), (2, "free", 2), (3, "own", None), (0, "both", None)]:
         cases.append(gen_fit_case(rng, variant, cc, skeleton=shapes[si][1]))
+    # ---- user analysis objects are arbitrary: half of the cases of every kind get members that carry attributes named
+    #      like the library's own (own generator: the cases above are the same inputs as without this block)
+    drng = random.Random(rng.getrandbits(64))
+    for c in cases:
+        if drng.random() < (0.5 if c["kind"] != "struct" else 0.25):
+            add_decoys(drng, c)
+    cases += decoy_cases(drng, vals_pool)
     return cases
 
 
@@ -945,6 +1021,11 @@ def run(ctx):
                 "every real fit. Every kind contains sums in which the same analysis object is written more than once (the named "
                 "shapes a+b+a, a+(b+a), (a+b)+(a+b), sum([c,c,c]) in every run + random repetitions) and distinct analyses "
                 "that compare/hash equal, evaluated serially before any pool exists and through the pool. "
+                "User analysis objects are arbitrary: in half of the cases of every kind (and in named free / with_model / both "
+                "shapes and fits of every run) plain and wrapped members carry attributes named like the library's own - model "
+                "(fresh priors / half the search model's / None), analysis, analyses, index, n_cores, free_parameters - set "
+                "directly, reachable through a forwarding __getattr__, or on a subclass overriding log_likelihood_function; "
+                "oracle and model see only the declared sum, so every clause must hold regardless of them. "
                 "distinct = distinct abstract input")
     ctx.trusted = [
         "Coq 8.16.1 kernel incl. vm_compute",
@@ -1003,6 +1084,12 @@ def run(ctx):
         ctx.hist("repeated_analysis:" + c["kind"], has_repeat(c))
         if c["kind"] in ("hist", "idx"):
             ctx.hist("equal_twins:" + c["kind"], has_twin(c))
+            ctx.hist("members_with_colliding_attributes:" + c["kind"], has_decoy(c))
+            for a in c.get("ads") or []:
+                for nm, v in sorted(((a.get("decoy") or {}).get("attrs") or {}).items()):
+                    ctx.hist("colliding_attribute", "%s=%s" % (nm, v if nm == "model" else ("None" if v in (None, "none") else "set")))
+                if a.get("decoy"):
+                    ctx.hist("colliding_attribute_via", a["decoy"]["cls"])
             if has_repeat(c) or has_twin(c):
                 ctx.hist("repeated_or_twin:serial_evals_before_any_pool",
                          sum(1 for op in (c["ops"] if not c.get("conf_cores") else [])[:next(
@@ -1020,6 +1107,7 @@ def run(ctx):
                     ctx.hist("scripted_passes", len(op[2]))
         if c["kind"] == "fit":
             ctx.hist("equal_twins:fit", has_twin(c))
+            ctx.hist("members_with_colliding_attributes:fit", has_decoy(c))
             ctx.hist("fit_variant", expected_struct(c)["kind"] + ("+own" if c.get("free") is not None and c["own"] else ""))
             ctx.hist("fit_cores", c.get("conf_cores", 1))
         ctx.oracle["cases"] += 1
@@ -1086,7 +1174,10 @@ MANIFEST = {
             "characterisation and |free|*n+|shared| count), the fit pipeline modify_before_fit -> make_result -> save_results "
             "(position i = analysis i = child i = folder i), multiplicity of repeated analyses (C15_sum_multiplicity, "
             "C15_serial/pool_multiplicity, C15_member_multiplicity, C15_free_params_count_of_expr; a sum over de-duplicated "
-            "analyses refuted) and an end-to-end statement over expressions; the model is parametrised "
+            "analyses refuted) and an end-to-end statement over expressions; members carrying colliding book-keeping attributes "
+            "(model / analysis / analyses / index / n_cores / free_parameters, direct or via __getattr__) are generated on the "
+            "implementation side only - the model and the oracle are given the declared sum, so correspondence checks that these "
+            "attributes change nothing (no separate theorem); the model is parametrised "
             "by the recorded defects; vm_compute correspondence with the running code under externally steered pool schedules, "
             "real MockSearch fits, and a direct property oracle on every generated case",
     "note": "Trusted: Coq kernel + vm_compute, the correspondence harness incl. the queue proxies that steer pool schedules. "
